@@ -525,3 +525,25 @@ Theorem reused_dependency_refuted :
   (let r := reg_stale [DWAIT] [DOK] in
    uns r = 0 /\ st r = READY /\ pc (fst (main_loop_l r)) = PExt ALockIn).
 Proof. cbv zeta. repeat split; vm_compute; reflexivity. Qed.
+
+(* ------------------------------------------------------------------ the reading of "unless it had already succeeded in an earlier run" (round 4) *)
+(* chain A <- B <- C; B has its success marker from an earlier run, A is run again and fails, C has never
+   run: B is DONE by its marker, so C - whose only dependency is DONE - is launched once and ends DONE,
+   and leaving the experiment raises (A failed).  A job decided by an earlier run cuts the chain: this is
+   what `fanc` says and what the oracle accepts. *)
+Definition W_cut : workload :=
+  {| w_jobs := [ {| j_deps := []; j_code := 1; j_marker := false; j_ident := 0; j_adopt := None |};
+                 {| j_deps := [DJob 0]; j_code := 0; j_marker := true; j_ident := 1; j_adopt := None |};
+                 {| j_deps := [DJob 1]; j_code := 0; j_marker := false; j_ident := 2; j_adopt := None |} ];
+     w_tokens := [] |}.
+Definition X_cut := [XSubmit 0; XSubmit 1; XSubmit 2; XDeliver 0; XDeliver 0; XDeliver 0; XDeliver 0; XDeliver 1;
+                     XDeliver 2; XDeliver 2; XDeliver 2; XDeliver 2; XWait]%nat.
+Example marker_cuts_chain :
+  let s := final W_cut all_fixed (expand W_cut all_fixed (init W_cut) X_cut) in
+  wf W_cut = true /\
+  is_some (steps_gen W_cut all_fixed (init W_cut) (expand W_cut all_fixed (init W_cut) X_cut)) = true /\
+  queue s = [] /\ has_pending s W_cut = false /\
+  pc (jobs s 0) = PReturned ERROR /\
+  pc (jobs s 1) = PReturned DONE /\ launches (jobs s 1) = 0%nat /\
+  pc (jobs s 2) = PReturned DONE /\ launches (jobs s 2) = 1%nat /\ wst s = WRaised.
+Proof. cbv zeta. repeat (split; [vm_compute; reflexivity|]). vm_compute; reflexivity. Qed.
